@@ -202,8 +202,12 @@ def calcGv (par : List α) (sw : List Bool) (gvLen : Nat) : α × α :=
 /-- `conv_gv` -/
 def convGv (par : List α) (sw : List Bool) (gvLen : Nat) (gvMean : α) : List α :=
   let (mean, vari) := calcGv par sw gvLen
-  let ratio := Transc.sqrt (gvMean / vari)
-  (par.zip sw).map fun (p, s) => if s then ratio * (p - mean) + mean else p
+  -- repaired: a trajectory that is constant over the eligible frames (zero variance) is left alone;
+  -- the pinned commit divided by the zero variance and produced NaN in every eligible frame
+  if ¬ (0 < vari) then par
+  else
+    let ratio := Transc.sqrt (gvMean / vari)
+    (par.zip sw).map fun (p, s) => if s then ratio * (p - mean) + mean else p
 
 /-- shift a list right by `i` (entries falling off are dropped, zeros enter) / left by `i` -/
 def shiftRight (i : Nat) (l : List α) : List α := (List.replicate i 0 ++ l).take l.length
